@@ -1,7 +1,7 @@
 EXPLANATION = ('C15: PiecewiseLinearTwoPhaseMaterial (krw/krn/pc evaluation) and EclEpsTwoPhaseLaw (two- and three-point saturation scaling, vertical relperm scaling, inverse maps) '
   'with symbolic monotone tables, symbolic scaled/unscaled end-points and symbolic saturation.')
 BOUNDS = 'tables with 3 and 4 nodes; end-point triples strictly ordered in [0,1]; two- and three-point variants (harness split); every saturation in [0,1]'
-OUTSIDE = 'EclMaterialLawManager::initFromState / readEffectiveParameters (family I vs II from table classes), SatfuncPropertyInitializers, three-phase combination (Stone/default), hysteresis scanning curves (separate harness), IEEE rounding'
+OUTSIDE = 'EclMaterialLawManager::initFromState / readEffectiveParameters (family I vs II from table classes), SatfuncPropertyInitializers, three-phase combination (Stone/default), Killough / WAG hysteresis and capillary-pressure hysteresis (the Carlson relperm model is covered), IEEE rounding'
 ASSUMPTIONS = ['doubles as reals', 'tables physically ordered (Sw increasing, krw non-decreasing from 0, krn non-increasing to 0, pc non-increasing)']
 def jobs(tier):
     out = []
@@ -18,4 +18,8 @@ def jobs(tier):
     for seg in (0, 1):
         out.append(dict(name='eps_roundtrip_3pt_seg%d' % seg, src='h_satfunc.cpp', defs={'NT': 3, 'THREEPT': 1, 'SEG': seg}, entry='h_eps_roundtrip', fp='real', loopmax=2000, maxsteps=4000000,
                         bounds='three-point scaling, inverse map on sub-interval %d' % seg, opts=['--qtimeout', '60000']))
+    for same in (0, 1):
+        out.append(dict(name='hysteresis_carlson%s' % ('_same' if same else ''), src='h_hyst.cpp', defs={'SAMECURVES': same}, entry='h_carlson', fp='real', loopmax=2000, maxsteps=8000000, timeout=900, partial_sites=True,
+                        bounds='Carlson non-wetting relperm hysteresis, concrete 3-node drainage and imbibition tables, two symbolic saturations seen in sequence, symbolic query point%s' % (' ; identical curves' if same else '')))
+    out.append(dict(name='hysteresis_disabled', src='h_hyst.cpp', defs={}, entry='h_disabled', fp='real', loopmax=2000, maxsteps=8000000, timeout=900, bounds='hysteresis switched off'))
     return out
